@@ -10,6 +10,7 @@ import (
 	"go/token"
 	"go/types"
 	"regexp"
+	"sort"
 	"strings"
 
 	"golang.org/x/tools/go/ssa"
@@ -577,16 +578,25 @@ func c09Fill(w *World, r *Report, outer []*ssa.Function) {
 		return
 	}
 	var fills []*ssa.Function
-	for _, m := range sp.Members {
-		fn, ok := m.(*ssa.Function)
-		if !ok || fn.Blocks == nil || len(fn.Params) != 3 || fn.Signature.Results().Len() != 0 {
+	// functions, methods (the receiver aside) and closures of the package with the fill signature
+	for _, fn := range w.ModFuncs() {
+		top := fn
+		for top.Parent() != nil {
+			top = top.Parent()
+		}
+		if top.Package() != sp || fn.Blocks == nil || fn.Synthetic != "" || fn.Signature.Results().Len() != 0 {
 			continue
 		}
-		if !isRangeResp(fn.Params[2].Type()) {
+		ps := fn.Params
+		if fn.Signature.Recv() != nil && len(ps) > 0 {
+			ps = ps[1:]
+		}
+		if len(ps) != 3 || !isRangeResp(ps[2].Type()) {
 			continue
 		}
 		fills = append(fills, fn)
 	}
+	sort.Slice(fills, func(i, j int) bool { return fills[i].Pos() < fills[j].Pos() })
 	for _, fn := range fills {
 		name := FnName(fn)
 		isCountStore := func(in ssa.Instruction) bool {
